@@ -396,7 +396,7 @@ def showOutcome (fs : List Frame) (sortSeries : Bool) : String :=
   s!"shape={shapeOf fs} series={joinWith ";" ser} warn={joinWith "," warn} hints={joinWith "," hints}"
 
 def lessNat (mx : Nat) (a b : Nat) : Bool :=
-  if a = mx && b ≠ mx then false else if a ≠ mx && b = mx then true else if a = mx && b = mx then true else a < b
+  if a = mx && b ≠ mx then false else if a ≠ mx && b = mx then true else if a = mx && b = mx then true else a / 16 < b / 16
 
 def handleMerge : List String → Option String
   | ["lt.merge", mx, seqs] => do
